@@ -181,16 +181,17 @@ public:
   const std::string& path() const { return path_; }
 };
 
-// Remove scratch files "<pid>-<tag>-*.gr" left behind by crashed workers whose
-// process no longer exists.
-inline void remove_stale(const char* tag) {
+// Remove scratch files "<pid>-<tag>-*<suffix>" left behind by crashed or killed
+// workers whose process no longer exists.
+inline void remove_stale(const char* tag, const char* suffix = ".gr") {
   DIR* d = opendir(tmp_dir());
   if (!d)
     return;
   std::string mid = std::string("-") + tag + "-";
   while (struct dirent* e = readdir(d)) {
     std::string nm = e->d_name;
-    if (nm.size() < 4 || nm.compare(nm.size() - 3, 3, ".gr") != 0)
+    size_t sl = strlen(suffix);
+    if (nm.size() <= sl || nm.compare(nm.size() - sl, sl, suffix) != 0)
       continue;
     size_t p = nm.find(mid);
     if (p == std::string::npos || p == 0)
